@@ -83,13 +83,15 @@ package dns
 //@ func (*ZoneParser).SetIncludeAllowed [C07]
 //@   requires zp != nil
 //@   ensures zp.includeAllowed == v
-//@   modifies H.ZoneParser.includeAllowed.v
+//@   modifies H.ZoneParser.includeAllowed.v@zp
 //@ func (*ZoneParser).SetDefaultTTL [C06]
 //@   requires zp != nil
 //@   ensures zp.defttl != nil && zp.defttl.ttl == ttl && !zp.defttl.isByDirective
+//@   modifies H.ZoneParser.defttl.v@zp
 //@ func (*ZoneParser).SetIncludeFS [C07]
 //@   requires zp != nil
 //@   ensures zp.fsys == fsys
+//@   modifies H.ZoneParser.fsys.tag@zp H.ZoneParser.fsys.val@zp
 //@ func NewZoneParser [C06 C07]
 //@   opt no-safety
 //@   ensures ret0 != nil && ret0.c != nil && ret0.sub == nil && (ret0.c.l.value == 1 ==> len(ret0.c.l.token) > 0) && (ret0.c.cachedL != nil ==> (ret0.c.cachedL.value == 1 ==> len(ret0.c.cachedL.token) > 0))
@@ -101,8 +103,11 @@ package dns
 //@   assert at "r := &generateReader{" range: 0 <= start && start <= end && step > 0 && (end - start) / step <= 65535
 // the parser of the generated text works under the includer's limits: same file system, same include permission and
 // depth, and the TTL state in force (so an omitted TTL in the template takes $TTL, else the last stated TTL)
-//@   assert at "return zp.subNext()" genfs: zp.sub.fsys == zp.fsys && zp.sub.includeAllowed == zp.includeAllowed && zp.sub.includeDepth == zp.includeDepth && zp.sub.generateDisallowed [C07]
+//@   assert at "return zp.subNext()" genfs: zp.sub.fsys == zp.fsys [C07]
+//@   assert at "return zp.subNext()" geninc: zp.sub.includeAllowed == zp.includeAllowed && zp.sub.includeDepth == zp.includeDepth [C07]
+//@   assert at "return zp.subNext()" gennest: zp.sub.generateDisallowed [C07]
 //@   assert at "return zp.subNext()" genttl: zp.defttl != nil ==> zp.sub.defttl == zp.defttl [C06]
+//@   assert at "return zp.subNext()" gensub: zp.sub != nil && zp.sub != zp [C07]
 //@   assert at "zp.sub = NewZoneParser(r, zp.origin, zp.file)" geninit: geninv(r.step, r.start, r.end, r.si, len(r.s), r.eof, r.cur) && r.lex != nil
 //@   assert at "return zp.subNext()" nonest: zp.sub != nil && zp.sub.generateDisallowed
 
